@@ -327,7 +327,7 @@ class MacIPAdvertisment(EVPN):
         # ip address
         if ip_addr_len != 0:
             route['ip'] = str(netaddr.IPAddress(
-                int(binascii.b2a_hex(value[offset: offset + int(ip_addr_len / 8)]), 16)))
+                int(binascii.b2a_hex(value[offset: offset + int(ip_addr_len / 8)]), 16), 6 if ip_addr_len == 128 else 4))
             offset += int(ip_addr_len / 8)
         # label
         route['label'] = cls.parse_mpls_label_stack(value[offset:])
